@@ -147,7 +147,15 @@ def run(ctx):
         ok = len(ds) == 1 and ds[0].rhs.canon() == rhs and not ds[0].guard
         ctx.ob('C38.wiring', 'USB3LinkLayer.' + lhs, ok, ds[0].loc if ds else None, '%s <= %s: %s' % (lhs, rhs, [q.fmt(d) for d in ds]))
     ir_ = ll.drivers('self.in_reset', exact=True)
-    ok = len(ir_) == 1 and ir_[0].rhs.canon() == 'ltssm.in_usb_reset | ltssm.request_hot_reset'
+    # in_reset = hot reset request | usb reset, the latter read back from the LTSSM input or taken from what drives it
+    ok = len(ir_) == 1 and not ir_[0].guard
+    if ok:
+        def dj(e):
+            return {d.canon() for d in q.disjuncts(q.expand(ll, e))}
+        got = dj(ir_[0].rhs)
+        src = q.comb_def(ll, 'ltssm.in_usb_reset')
+        ok = got == {'ltssm.in_usb_reset', 'ltssm.request_hot_reset'} or \
+            (src is not None and got == dj(src) | {'ltssm.request_hot_reset'})
     ctx.ob('C38.wiring', 'USB3LinkLayer.in_reset', ok, ir_[0].loc if ir_ else None, 'in_reset = hot reset request | usb reset')
 
 
